@@ -39,7 +39,10 @@ TRANSLATORS = {
            "(Application.__request__, state_from_table, error_from_table, "
            "handler_from_before -> gen/DispatchGen.v)",
     "C02": _T + "harness/py2v_select.py (handler_from_table, "
-           "handler_from_default -> gen/SelectGen.v)",
+           "handler_from_default -> gen/SelectGen.v); harness/py2v_route.py "
+           "+ coq/lib/PyRoute.v (re_filter, built-in filters, __regex, "
+           "__converter, set_filter, compile step of set_route/pop_route/"
+           "is_route -> gen/RouteGen.v)",
     "C05": _T + "harness/py2v_shapes.py + coq/lib/PyShapes.v (make_response, "
            "to_response, __start_response__ -> gen/ShapesGen.v)",
     "C07": _T + "harness/py2v.py + coq/lib/Py.v (make_partial, range block, "
@@ -83,7 +86,9 @@ TRANSLATORS.update({
            "mutable objects, their writers and escapes -> gen/SharedGen.v; "
            "an under-approximation, judged by model/SharedState.v)",
     "C18": _T + "harness/py2v_param.py + coq/lib/PyParam.v (_parseparam, "
-           "parse_header -> gen/ParamGen.v)",
+           "parse_header -> gen/ParamGen.v); harness/py2v_codec.py + "
+           "coq/lib/PyCodec.v (parse_range, ContentRange, parse_/"
+           "render_negotiation, the four date functions -> gen/CodecGen.v)",
     "C19": _T + "harness/py2v_registry.py + coq/lib/PyRegistry.v (the "
            "registration methods of Application -> gen/RegistryGen.v)",
 })
@@ -91,7 +96,8 @@ TRANSLATORS["C03"] = TRANSLATORS["C01"]
 TRANSLATORS["C04"] = TRANSLATORS["C01"] + (
     "; harness/py2v_abort.py + coq/lib/PyAbort.v (HTTPException, abort, "
     "redirect, RedirectResponse.__init__ -> gen/AbortGen.v)")
-TRANSLATORS["C20"] = TRANSLATORS["C02"]
+TRANSLATORS["C20"] = _T + ("harness/py2v_select.py (handler_from_table, "
+                            "handler_from_default -> gen/SelectGen.v)")
 _INPUTS = ("; harness/py2v_inputs.py (census of string-keyed lookups and the "
            "dispatch footprint in wsgi.py / request.py -> gen/InputsGen.v, "
            "judged by model/Inputs.v)")
